@@ -487,6 +487,7 @@ def gen_stop_sweep(seed: int, n: int) -> List[Scn]:
                 if rng.random() < 0.5:
                     mc.update({"task": "ts0", "slow": True})
             cfg["ack"] = rng.choice(["default", "when_executed", "when_saved", "when_received"])
+        cfg["bystander"] = len(out) % 5 == 0
         base = _flow_steps(rng, cfg, rng.randint(3, 8), ["ret", "exc"], midflight=False, stop_p=0.0)
         endless = rng.random() < 0.4
         for pos in range(len(base) + 1):
